@@ -30,14 +30,14 @@ import (
 )
 
 type scen struct {
-	side   string // client | server
-	soft   bool
-	net    string // flowing | wstall | stall
-	point  string // corked | flushed | mid | half
-	ops    []string
-	unary  bool
-	split  int
-	wbuf   int
+	side  string // client | server
+	soft  bool
+	net   string // flowing | wstall | stall
+	point string // corked | flushed | mid | half
+	ops   []string
+	unary bool
+	split int
+	wbuf  int
 }
 
 func (s scen) hasOp(x string) bool {
